@@ -29,6 +29,7 @@ Your scratch git worktree of the repository is `{wt}` (work only there; never to
 anything under `/verif`). Go environment for every shell command: `export GOFLAGS=-mod=mod GOPROXY=off` (no network;
 leave GOTOOLCHAIN and GOSUMDB unset; plain `go` auto-switches to the right toolchain from the module cache).
 `go build ./...` fails on the `ui` package in any worktree (missing embedded assets); build and test the packages you touch.
+Never use `git stash` (the stash is shared by all worktrees of the repository and other people work beside you): to compare with the unchanged code, save your diff to a file, `git checkout -- .`, and `git apply` it again.
 
 ## The property ({pid}: {d.get('title','')})
 
